@@ -15,6 +15,26 @@ class Ent:
 def parse_policy(s):
     """returns DNF: list of clauses, each a list of (dim, name); None on syntax error.
     Grammar: expr := and ('||' expr)? ; and := atom ('&&' atom)* ; atom := '(' expr ')' | '*' | dim '::' name"""
+    if s.startswith('@'):
+        # a policy BUILT with the constructors (prefix notation): its DNF is the plain distribution, without the
+        # simplifications the parser and the operators apply (Broadcast = the empty clause, kept where it stands)
+        t = s[1:].split(','); pos = [0]
+        def go():
+            if pos[0] >= len(t): return None
+            k = t[pos[0]]; pos[0] += 1
+            if k == 'B': return [[]]
+            if k == 'T':
+                if pos[0] + 1 >= len(t): return None
+                try: d, n = bytes.fromhex(t[pos[0]]).decode(), bytes.fromhex(t[pos[0] + 1]).decode()
+                except Exception: return None
+                pos[0] += 2; return [[(d, n)]]
+            if k in ('A', 'O'):
+                l = go(); r = go()
+                if l is None or r is None: return None
+                return [a + b for a in l for b in r] if k == 'A' else l + r
+            return None
+        r = go()
+        return r if r is not None and pos[0] == len(t) else None
     toks = []; i = 0; s = s
     while i < len(s):
         c = s[i]
@@ -285,7 +305,7 @@ class Spec:
             for nme, e in d[1]:
                 if nme == arg(f[2]): e.hyb = f[3] == '1'; return 'OK'
             return 'ERR'
-        if op == 'RFBAD': return 'ERR' if self.usks else 'NOIDX'
+        if op in ('RFBAD', 'RFX'): return 'ERR' if self.usks else 'NOIDX'
         if op == 'SNAP':
             self.snaps.append(copy.deepcopy((self.dims, self.next_eid, self.msk, self.known))); return 'OK'
         if op == 'REST':
